@@ -44,7 +44,7 @@ Accepted subset (anything else raises TranslateError with file:line):
               SPECS (checked against the `def` line: names, order, defaults).
   objects     self.pcfg / pcfg (grammar), self.pqueue / a local bound by PcfgQueue(...)
               (queue), self.save_config, self.report / report (status report: ghost),
-              a local bound by threading.Thread(target=keypress, args=(report, pcfg)),
+              a local bound by threading.Thread(target=keypress, args=(report, pcfg)[, daemon=b]),
               `error` of `except IOError as error` (ghost), self.mode (a str constant
               read from __init__), self.save_filename (inside the open(...) pattern and
               in stderr prints only), self.random_seed (an int attribute: get/set).
@@ -70,7 +70,18 @@ Accepted subset (anything else raises TranslateError with file:line):
               OSError / IOError / Exception / bare: ... (one handler, no else / finally;
               the handler is placed at every operation of the body that may raise and
               sees the variables as they are there);  return / return True / False;
-              self._save_session();  pass;  a docstring.
+              self._save_session();  pass;  a docstring;
+              a call, as a statement and without arguments, of a private helper of the
+              module / the class that is not itself translated (`_print_exit_notice()`): its
+              body is inlined in place (no parameters, no return of a value, no early
+              return; it sees none of the caller's locals);
+              for x in (<literal tuple / list of constants>): BODY  is unrolled (BODY once per
+              element, no break / continue; x itself is dropped: it may only be used in
+              statements that are not modelled and in the stderr prints of keypress);
+              x = str(<int>) (a local on its way into the save configuration, carried as the
+              int);  x = <expression the translator has no type for and that acts on nothing>
+              (item['prob'] * n, ...): x is dropped, a later use outside a skipped statement
+              is refused.
               Skipped with a note in the generated text, because the models have no
               counterpart (status bookkeeping and stderr): print(..., file=sys.stderr)
               outside keypress (a print WITHOUT file=sys.stderr is refused: it would
